@@ -468,6 +468,31 @@ fn fraction_round_check(digits: usize) {
     assert!(usec <= 1_000_000);
 }
 
+/// quick stand-in for the three obligations below: four concrete six-digit prefixes, EVERY seventh / eighth / ninth digit,
+/// widths 7..=9: half-up rounding from the full digit string (one rounding, not digit by digit), carry into the prefix
+#[kani::proof]
+#[kani::unwind(12)]
+fn scan_parse_fraction_round_tail_bounded() {
+    let sel: u8 = kani::any();
+    let (prefix, text): (u32, [u8; 6]) = match sel % 4 {
+        0 => (0, *b"000000"), 1 => (123_456, *b"123456"), 2 => (499_999, *b"499999"), _ => (999_999, *b"999999") };
+    let d: [u8; 3] = kani::any();
+    kani::assume(d[0] <= 9 && d[1] <= 9 && d[2] <= 9);
+    let digits: usize = kani::any();
+    kani::assume(digits >= 7 && digits <= 9);
+    let mut buf = [b'0'; 9];
+    let mut i = 0;
+    while i < 6 { buf[i] = text[i]; i += 1; }
+    buf[6] = b'0' + d[0]; buf[7] = b'0' + d[1]; buf[8] = b'0' + d[2];
+    let r = parse_fraction(&buf[..digits], 9);
+    assert!(r.is_ok());
+    let (usec, rem) = r.unwrap();
+    assert!(rem.is_empty());
+    // half-up on the digits actually read: the first dropped digit decides
+    let want = prefix + if d[0] >= 5 { 1 } else { 0 };
+    assert!(usec == want);
+}
+
 #[kani::proof]
 #[kani::unwind(12)]
 fn scan_parse_fraction_round7() {
